@@ -747,7 +747,13 @@ func (g *gen) behC13() M {
 		default:
 			prog = append(prog, M{"op": "complete", "tag": "COPY " + g.text(4)}, M{"op": "ret", "r": "nil"})
 		}
-		st := M{"id": id, "cols": g.cols(nc), "oids": []any{}, "prog": prog}
+		cols := g.cols(nc)
+		for _, cv := range cols {
+			// COPY does not depend on the column types being known to the type map (money, xml, unspecified,
+			// an extension type): the handler may well read the raw chunks itself
+			run.AsM(cv)["oid"] = []int{25, 25, 23, 790, 142, 0, 99999}[g.rng.Intn(7)]
+		}
+		st := M{"id": id, "cols": cols, "oids": []any{}, "prog": prog}
 		q := M{"id": id, "parse": "ok", "stmts": []any{st}}
 		ext := g.chance(0.3)
 		if ext {
@@ -780,7 +786,7 @@ func (g *gen) behC13() M {
 				case 1:
 					m = M{"t": "E", "portal": "", "max": g.maxRows()}
 				case 2:
-					m = M{"t": "D", "kind": "P", "name": ""}
+					m = M{"t": g.pick("D", "C", "C"), "kind": g.pick("P", "S"), "name": ""} // Describe / Close are foreign messages too
 				case 3:
 					if r == rounds-1 {
 						m = M{"t": "X"} // Terminate in the middle of a COPY is a foreign message like any other
